@@ -64,7 +64,7 @@ def gen_files(rng, name, tier):
     nfiles = rng.choice([1, 1, 2])
     mx = 40 if tier == "quick" else 160
     counts = [rng.choice([1, 2, rng.randint(1, mx // nfiles), rng.randint(1, mx // nfiles)]) for _ in range(nfiles)]
-    spec = {"nbits": nbits, "nchans": nchans, "nsamps": counts, "pad": [rng.randint(0, 5) for _ in counts],
+    spec = {"nbits": nbits, "nchans": nchans, "nsamps": counts, "pad": filgen.gen_pads(rng, len(counts), 5),
             "vseed": rng.randrange(1 << 16), "mode": T.data_mode_rng(name, nbits, rng)}
     if name == "downsample" and rng.random() < 0.3:
         spec["mode"] = "flat"  # exact-integer block means: the reduced value is then fixed by ANY rounding rule
